@@ -115,6 +115,10 @@ def contracts():
     return error_contracts() + extra + control.expression_matches() + control.interfaces()
 
 
+
+def bounded(tier, seed):
+    return [{"name": "C05.bounded", "script": "native/bounded_C05.py", "timeout": 3000, "scope": "all 63 non-empty policy subsets x 4 error kinds x offending line first/middle/last (thorough every position) x 7 validation-mode overrides (quick: a fifth of the overridden cases)"}]
+
 LEVEL = "proof"
 EXPLANATION = ("The five observable effects of error handling are postconditions (normal and exceptional exits) on the real "
                "ErrorHandler._handle_if for a symbolic policy list and symbolic validation-mode overrides; ErrorCommsManager.do_i_* and "
